@@ -7,6 +7,7 @@ import (
 	"errors"
 	"fmt"
 	"strings"
+	"time"
 
 	"github.com/varlink/go/varlink"
 
@@ -42,6 +43,11 @@ type E2ECall struct {
 	Flags  uint64 `json:"flags,omitempty"`
 	// Via: "send" (Send + receive) | "call" (Connection.Call, flags ignored)
 	Via string `json:"via"`
+	// DeadlineUs > 0: the call runs under a context with this (generous) deadline;
+	// PauseUs: simulated pause before the call. A deadline armed for one call must
+	// not cut a later one.
+	DeadlineUs int `json:"deadline_us,omitempty"`
+	PauseUs    int `json:"pause_us,omitempty"`
 }
 
 func (s *E2EScenario) Cfg() sim.Config { return s.Config }
@@ -168,6 +174,13 @@ func (s *E2EScenario) Setup(k *sim.Kernel) {
 			ctx := context.Background()
 			expected := s.expectedReads(cl)
 			for i, call := range cl.Calls {
+				if call.PauseUs > 0 {
+					sim.Sleep(time.Duration(call.PauseUs) * time.Microsecond)
+				}
+				ctx := ctx
+				if call.DeadlineUs > 0 {
+					ctx = sim.NewCtx(time.Duration(call.DeadlineUs) * time.Microsecond)
+				}
 				if call.Via == "call" {
 					var out json.RawMessage
 					err := conn.Call(ctx, call.Method, rawOrNil(call.Params), &out)
@@ -647,6 +660,12 @@ func genE2E(g *Gen, prop string, params func() string, script func(more bool) Sc
 				call.Via = "call"
 			}
 			call.Params = withCid(cid, params())
+			if g.Pct(10) {
+				call.DeadlineUs = 3600e6
+			}
+			if g.Pct(8) {
+				call.PauseUs = 7200e6
+			}
 			s.Scripts[cid] = script(more)
 			cl.Calls = append(cl.Calls, call)
 		}
